@@ -242,7 +242,10 @@ def family_n(rng, quick, seed, gen_ok):
     for fi, (ft, fb) in enumerate(firsts):
         for wi, (wt, wb) in enumerate(wraps):
             k += 1
-            qs = N_QUERIES if not quick else [N_QUERIES[(i * 2 + k + seed) % len(N_QUERIES)] for i in range(6)]
+            # the conversions to either dtype by to() and by type() run in EVERY cell (one of the two targets equals the
+            # nominal dtype of the data-free argument); the other queries rotate in the quick tier
+            core = [("to", "pos", "F32"), ("to", "pos", "F64"), ("type", "F32"), ("type", "F64")]
+            qs = N_QUERIES if not quick else core + [N_QUERIES[(i * 2 + k + seed) % len(N_QUERIES)] for i in range(3)]
             out.append(("N:%s/%s" % (wt, ft), (lambda d, fb=fb, wb=wb: wb(fb(d))), list(dict.fromkeys(qs))))
         out.append(("N:alone/%s" % ft, fb, N_QUERIES))
     return [(nm, b, q) for nm, b, q in out if gen_ok(b("F64"))]
